@@ -89,15 +89,18 @@ def convolve_model_dir_monochromatic(model_dir, overwrite=False, max_ram=8,
     chunk_size = min(chunk_size, jhi - jlo + 1)
 
     # Loop over wavelength chunks
-    for jmin in range(jlo, jhi, chunk_size):
+    for jmin in range(jlo, jhi + 1, chunk_size):
 
         # Find upper wavelength to compute
         jmax = min(jmin + chunk_size - 1, jhi)
 
+        # Number of wavelengths in this chunk (the last one can be shorter)
+        n_chunk = jmax - jmin + 1
+
         log.info('Processing wavelengths {0} to {1}'.format(jmin, jmax))
 
         # Set up convolved fluxes
-        fluxes = [ConvolvedFluxes(model_names=np.zeros(n_models, dtype='U30'), apertures=apertures, initialize_arrays=True) for i in range(chunk_size)]
+        fluxes = [ConvolvedFluxes(model_names=np.zeros(n_models, dtype='U30'), apertures=apertures, initialize_arrays=True) for i in range(n_chunk)]
 
         b = ProgressBar(len(sed_files))
 
@@ -112,7 +115,7 @@ def convolve_model_dir_monochromatic(model_dir, overwrite=False, max_ram=8,
             s = SED.read(sed_file, unit_freq=u.Hz, unit_flux=u.mJy, order='nu')
 
             # Convolve
-            for j in range(chunk_size):
+            for j in range(n_chunk):
 
                 fluxes[j].central_wavelength = wavelengths[j + jmin]
                 fluxes[j].apertures = apertures
@@ -125,7 +128,7 @@ def convolve_model_dir_monochromatic(model_dir, overwrite=False, max_ram=8,
                     fluxes[j].flux[im, :] = s.flux[:, j + jmin]
                     fluxes[j].error[im, :] = s.error[:, j + jmin]
 
-        for j in range(chunk_size):
+        for j in range(n_chunk):
             fluxes[j].sort_to_match(par_table['MODEL_NAME'])
             fluxes[j].write('{0:s}/convolved/MO{1:03d}.fits'.format(model_dir, j + jmin + 1),
                             overwrite=overwrite)
